@@ -71,6 +71,10 @@ CHECKS = {
    technique="TLC model checking (safety + liveness under weak fairness) of AnkoCancel.tla with wrong-design negative controls + cancellation delivered inside the verif hooks at every gate of every core x wrapper program on the real VM, observations validated by TLC",
    text="The abstract interpreter thread (polls at statement entry, loop heads and channel waits; interrupt wrapped at function boundaries; try, ?? and deferred calls as potential swallowers) is model-checked for every stack of up to three wrappers with cancellation at any moment: no effect after the cancellation is observed, the result is the interrupt, and cancelled leads to finished. On the real interpreter the context is cancelled at the k-th gate for every k (exact instants at poll granularity) for 16 spinning/blocking cores under 21 wrappers and sampled pairs, and once asynchronously; each run must return within 5 s with 'execution interrupted' and without later script effects.",
    note="Trusted: the hooks fire at the interpreter's polling sites (a removed hook shows as fewer instants, not as an alarm); wall-clock bound 5 s vs. measured latencies of microseconds to ~30 ms. Time inside one host Go call (including callbacks it makes) is outside the property."),
+ "C20": dict(level="model_checking", design="5 (C20), 3.2",
+   technique="TLC enumerates operation template x operand value x provenance chain and builds each script (AnkoProvenance.tla); outcomes observed on the real VM are validated by TLC against the law Outcome(T[c(v)]) = Outcome(T[v])",
+   text="Every provenance hop (slice element, map entry, script call, Go call returning interface{}, parentheses, ternary, ??) is specified as the identity on values; the product of ~130 operation templates (every operator position, index/slice/len/in, call/spread/member/deref, loops, switch, conditions, make sizes, channel operations, delete, throw, assignment targets, defer/go) x 16 operand values x all chains up to length 2 (3) is enumerated by TLC and each instantiated script must yield the same canonical value, dynamic type and error-or-success as with the bare variable.",
+   note="Trusted: the canonical printing of outcomes (pointers followed, addresses masked, maps sorted); the bare-variable outcome is the reference, so an operation that is wrong for every provenance alike is not this property's business. One excluded combination (element assignment on a string through a non-assignable operand)."),
 # <<ADD>>
 }
 
